@@ -1,41 +1,55 @@
 -------------------------- MODULE LifespanTrace --------------------------
-(* Trace judge for the lifespan clause of C03: [hs, shutdown (the server sent lifespan.shutdown),
-   ev: handler calls, sent: events the application sent].
+(* Trace judge for the lifespan clause of C03.  A trace is the history of ONE application object:
+   [hs0: lifespan methods of the initial components,
+    cycles: <<[adds: shapes of components added before this cycle, shutdown: the server sent
+               lifespan.shutdown in this cycle, ev: handler calls, sent: events the application sent]>>].
      P3:lifespan-order   the handler called is not the one the discipline requires next
      P3:lifespan-missing a handler the discipline requires was not called
      P3:lifespan-extra   a handler ran after the sequence had to stop
-     P3:lifespan-events  the events sent to the server differ *)
+     P3:lifespan-events  the events sent to the server in a cycle differ *)
 EXTENDS Lifespan, Json, IOUtils
 Traces == JsonDeserialize(IOEnv.TRACE_FILE)
 Empty == {}
-VARIABLES tid, l, st, verdict
-tvars == <<tid, l, st, verdict>>
+VARIABLES tid, k, l, st, verdict
+tvars == <<tid, k, l, st, verdict>>
 T == Traces[tid]
-Ev == T.ev[l]
-HaveEv == l <= Len(T.ev)
+Cy == T.cycles[k]
+Ev == Cy.ev[l]
+HaveEv == l <= Len(Cy.ev)
 SetOf(s) == {s[j] : j \in 1..Len(s)}
 
-TInit == /\ tid \in 1..Len(Traces) /\ l = 1 /\ st = "run" /\ verdict = "ok"
-         /\ hs = [c \in 1..Len(Traces[tid].hs) |-> SetOf(Traces[tid].hs[c])]
-         /\ phase = "idle" /\ i = 0 /\ calls = <<>> /\ sent = <<>>
+TInit == /\ tid \in 1..Len(Traces) /\ k = 1 /\ l = 1 /\ st = "run" /\ verdict = "ok"
+         /\ hs = [c \in 1..Len(Traces[tid].hs0) |-> SetOf(Traces[tid].hs0[c])]
+         /\ phase = "out" /\ i = 0 /\ cycle = 0 /\ adds = <<>> /\ sd = <<>> /\ calls = <<>> /\ sent = <<>>
+
+(* before cycle k: the add_middleware calls the history made, then the scope is entered *)
+Setup == /\ phase = "out" /\ cycle = k - 1
+         /\ LET done == Cardinality({a \in 1..Len(adds) : adds[a].after = k - 1}) IN
+              IF done < Len(Cy.adds) THEN AddMiddleware(SetOf(Cy.adds[done + 1])) ELSE Enter
+         /\ UNCHANGED tvars
 
 MSite == CASE phase = "startup" /\ i <= N /\ "startup" \in hs[i]  -> <<"startup", i>>
            [] phase = "shutdown" /\ i >= 1 /\ "shutdown" \in hs[i] -> <<"shutdown", i>>
            [] OTHER -> <<"", 0>>
-Fail(v) == verdict' = v /\ st' = "fin" /\ UNCHANGED <<vars, tid, l>>
-Silent == /\ MSite[1] = ""
-          /\ \/ RecvStartup \/ StartupSkip \/ StartupDone \/ (T.shutdown /\ RecvShutdown) \/ ShutdownSkip \/ ShutdownDone
+Fail(v) == verdict' = v /\ st' = "fin" /\ UNCHANGED <<vars, tid, k, l>>
+Silent == /\ MSite[1] = "" /\ cycle = k
+          /\ \/ RecvStartup \/ StartupSkip \/ StartupDone \/ (Cy.shutdown /\ RecvShutdown) \/ ShutdownSkip \/ ShutdownDone
           /\ UNCHANGED tvars
 Consume == /\ MSite[1] # ""
            /\ IF ~HaveEv THEN Fail("P3:lifespan-missing")
               ELSE IF <<Ev.site, Ev.c>> # MSite THEN Fail("P3:lifespan-order")
               ELSE IF Ev.act \notin {"ok", "raise"} THEN Fail("H:act")
-              ELSE (StartupCall(Ev.act) \/ ShutdownCall(Ev.act)) /\ l' = l + 1 /\ UNCHANGED <<tid, st, verdict>>
-Quiescent == phase = "down" \/ (phase = "up" /\ ~T.shutdown)
-Finish == /\ st = "run" /\ Quiescent
-          /\ IF HaveEv THEN Fail("P3:lifespan-extra")
-             ELSE verdict' = (IF T.sent # sent THEN "P3:lifespan-events" ELSE "ok") /\ st' = "fin" /\ UNCHANGED <<vars, tid, l>>
-Done == /\ st = "fin" /\ PrintT(<<"VERDICT", tid, verdict, l - 1>>) /\ st' = "done" /\ UNCHANGED <<vars, tid, l, verdict>>
-TNext == (st = "run" /\ (Silent \/ Consume \/ Finish)) \/ Done
+              ELSE (StartupCall(Ev.act) \/ ShutdownCall(Ev.act)) /\ l' = l + 1 /\ UNCHANGED <<tid, k, st, verdict>>
+Quiescent == cycle = k /\ (phase = "out" \/ (phase = "up" /\ ~Cy.shutdown))
+CycleEnd == /\ st = "run" /\ Quiescent
+            /\ IF HaveEv THEN Fail("P3:lifespan-extra")
+               ELSE IF Cy.sent # Evs(k) THEN Fail("P3:lifespan-events")
+               ELSE IF k < Len(T.cycles)
+                      THEN /\ (IF phase = "up" THEN Abandon ELSE UNCHANGED vars)
+                           /\ k' = k + 1 /\ l' = 1 /\ UNCHANGED <<tid, st, verdict>>
+                      ELSE st' = "fin" /\ UNCHANGED <<vars, tid, k, l, verdict>>
+Done == /\ st = "fin" /\ PrintT(<<"VERDICT", tid, verdict, (k - 1) * 1000 + l - 1>>) /\ st' = "done"
+        /\ UNCHANGED <<vars, tid, k, l, verdict>>
+TNext == (st = "run" /\ (Setup \/ Silent \/ Consume \/ CycleEnd)) \/ Done
 Sound == st = "run" => verdict = "ok"
 =========================================================================
